@@ -1,4 +1,6 @@
 import Py4hwV.Proofs.C08Gates
+import Py4hwV.Proofs.C08Wide
+import Py4hwV.Proofs.C08Legal
 /-
   C08 — Logic, selection and comparison blocks implement their truth tables exactly.
 
@@ -23,6 +25,17 @@ import Py4hwV.Proofs.C08Gates
                  comparatorSU_spec max2_spec min2_spec signedMax2_spec signedMin2_spec
     repaired     xor2_wide_fixed (former xor2_wide_counterexample, /repo commit 4cfd4ac), norN_wide_fixed (99fa1f2), nor2_wide_fixed (aa5aa9b)
     negative     equalConstant_out_of_range_counterexample priorityEncoder_docstring_counterexample
+    round 8 (Proofs/C08Wide.lean): exact characterisations outside the documented domain
+                 sumOfMinterms_wrap sumOfMintermsWrap_congr sumOfMintermsWrap_in_range sumOfMinterms_complement
+                 priorityEncoder_general priorityEncoder_spec_of_le
+                 minterm_wide equalConstant_wide equalConstantW_one notEqualConstant_wide equal_wide comparator_wide
+    negative     sumOfMinterms_out_of_range_counterexample priorityEncoder_narrow_first_counterexample equal_wide_counterexample
+    legality (Proofs/C08Legal.lean): constructor accepted (Lib.*Legal, tied to the real constructors by legal-vs-raises) ⇒ specification
+                 andN_spec_of_legal orN_spec_of_legal norN_spec_of_legal xorN_spec_of_legal concatMSBF_spec_of_legal
+                 concatLSBF_spec_of_legal bufEnable_spec_of_legal andBits_spec_of_legal orBits_spec_of_legal muxLegal_iff
+                 mux_spec_of_legal demux_spec_of_legal decoder_spec_of_legal select_spec_of_legal sumOfMinterms_wrap_of_legal
+                 equalConstant_wide_of_legal equal_wide_of_legal comparator_wide_of_legal comparatorSU_spec_of_legal
+    negative     mux_zero_select_counterexample
 -/
 namespace C08
 open Lib Leaf
@@ -182,6 +195,41 @@ example : Lib.max2 4 4 9 5 = 9 ∧ Lib.min2 4 4 9 5 = 5 := by
   rw [max2_spec 4 4 9 5 (by decide) (by decide), min2_spec 4 4 9 5 (by decide) (by decide)]; decide
 example : Lib.signedMax2 4 4 9 5 = 5 ∧ Lib.signedMin2 4 4 9 5 = 9 := by
   rw [signedMax2_spec 4 4 9 5 (by decide) (by decide) (by decide), signedMin2_spec 4 4 9 5 (by decide) (by decide) (by decide)]; decide
+-- round 8: outside the documented domain
+example : Lib.sumOfMinterms 3 1 5 [13, 5, -3, 13] = 1 ∧ Lib.sumOfMinterms 3 1 4 [13, 5, -3, 13] = 0 := by   -- 13, −3 wrap to 5
+  rw [sumOfMinterms_wrap 3 1 5 _ (by decide) (by decide) (by decide) (by decide),
+    sumOfMinterms_wrap 3 1 4 _ (by decide) (by decide) (by decide) (by decide)]; decide
+example : Lib.sumOfMinterms 2 1 3 [0, 1, 2] = 0 := by      -- dense list without the all-ones value (seed C08m), input all ones
+  rw [sumOfMinterms_wrap 2 1 3 _ (by decide) (by decide) (by decide) (by decide)]; decide
+example : LSpec.sumOfMinterms 3 [0, 1, 2] = 1 - LSpec.sumOfMinterms 3 [3] :=
+  sumOfMinterms_complement 2 3 [3] [0, 1, 2] (by decide) (by decide)
+example : Lib.priorityEncoder 1 2 false [0, 2, 3] = [0, 0, 1] := by rw [priorityEncoder_general]; decide
+example : Lib.priorityEncoder 3 2 true [5, 2, 9, 4] = [0, 2, 1, 0] := by      -- 2-bit outputs, 3-bit helper wires, wider inputs
+  rw [priorityEncoder_spec_of_le 3 2 true _ (by decide)]; decide
+example : Lib.minterm 3 [1, 0, 1] 5 = 1 := by rw [minterm_wide 3 _ 5 (by decide) (by decide)]; decide
+example : Lib.equalConstant 1 3 0 0 = 7 ∧ Lib.equalConstant 1 3 1 0 = 6 ∧ Lib.equalConstant 3 2 5 13 = 1 := by
+  rw [equalConstant_wide 1 3 0 0 (by decide) (by decide), equalConstant_wide 1 3 1 0 (by decide) (by decide),
+    equalConstant_wide 3 2 5 13 (by decide) (by decide)]; decide
+example : Lib.notEqualConstant 2 3 2 2 = 6 ∧ Lib.notEqualConstant 2 3 1 2 = 7 := by
+  rw [notEqualConstant_wide 2 3 2 2 (by decide) (by decide), notEqualConstant_wide 2 3 1 2 (by decide) (by decide)]; decide
+example : Lib.equal 2 2 2 1 1 = 3 ∧ Lib.equal 2 2 2 1 2 = 2 := by
+  rw [equal_wide 2 2 2 1 1 (by decide) (by decide) (by decide) (by decide),
+    equal_wide 2 2 2 1 2 (by decide) (by decide) (by decide) (by decide)]; decide
+example : Lib.comparator 2 2 3 3 1 = (1, 0, 0) ∧ Lib.comparator 0 2 2 0 0 = (0, 3, 0) := by
+  rw [comparator_wide 2 2 3 3 1 (by decide) (by decide) (by decide), comparator_wide 0 2 2 0 0 (by decide) (by decide) (by decide)]; decide
+-- legality: the hypotheses are the decidable predicates evaluated by the driver
+example : Lib.andN 3 [7, 5, 6] = 4 := by rw [andN_spec_of_legal 3 _ (by decide)]; decide
+example : Lib.xorN 3 [(3, 5), (2, 3), (3, 7)] = 1 := by rw [xorN_spec_of_legal 3 _ (by decide) (by decide)]; decide
+example : Lib.concatLSBF 6 [(2, 3), (3, 1), (1, 0)] = 0b000111 := by rw [concatLSBF_spec_of_legal 6 _ (by decide) (by decide)]; decide
+example : Lib.bufEnable 4 11 1 = 11 := by rw [bufEnable_spec_of_legal 4 1 4 11 1 (by decide) (by decide)]; decide
+example : muxLegal 3 8 = true ∧ muxLegal 1 3 = true ∧ muxLegal 0 1 = true ∧ muxLegal 2 3 = false ∧ muxLegal 2 5 = false := by decide
+example : Lib.mux 4 3 5 [10, 11, 12, 13, 14, 15, 0, 1] = 15 := by rw [mux_spec_of_legal 4 3 5 _ (by decide) (by decide) (by decide)]; decide
+example : Lib.demux 3 2 5 2 = [0, 0, 5, 0] := by rw [demux_spec_of_legal 3 2 5 2 4 (by decide) (by decide)]; decide
+example : Lib.decoder 3 6 5 = [0, 0, 0, 0, 0] := by rw [decoder_spec_of_legal 3 6 5 (by decide) (by decide) (by decide)]; decide
+example : Lib.select 4 [0, 1] [(4, 9), (4, 6), (4, 15)] = 6 := by rw [select_spec_of_legal 4 _ _ (by decide) (by decide)]; decide
+example : Lib.sumOfMinterms 3 1 5 [13, -3] = 1 := by rw [sumOfMinterms_wrap_of_legal 3 1 5 _ (by decide) (by decide) (by decide)]; decide
+example : Lib.comparator 3 1 2 6 6 = (0, 1, 0) := by rw [comparator_wide_of_legal 3 3 1 2 6 6 (by decide) (by decide) (by decide) (by decide)]; decide
+example : Lib.comparatorSU 4 9 5 = (1, 0, 0, 0, 1) := by rw [comparatorSU_spec_of_legal 4 4 9 5 (by decide) (by decide) (by decide)]; decide
 example : Lib.swap 4 4 3 8 1 = (8, 3) ∧ Lib.swap 4 4 3 8 0 = (3, 8) := by rw [swap_spec, swap_spec]; decide
 
 end C08
